@@ -179,9 +179,10 @@ class Fraction(Factory, Container):
             if not isinstance(w, numbers.Real):
                 raise TypeError(f"function return value ({w}) must be boolean or number")
             w *= weight
+            passes = w > 0.0  # a value that only looks like a number (numpy.timedelta64) fails here
 
             self.denominator.fill(datum, weight)
-            if w > 0.0:
+            if passes:
                 self.numerator.fill(datum, w)
 
             # no possibility of exception from here on out (for rollback)
